@@ -28,7 +28,7 @@ import (
 type arrival struct {
 	tid     int
 	id, ts  uint64
-	release chan bool
+	release chan int // relKill | relOK | relFail
 }
 
 // gateStore wraps the real store; SaveAllocatorState parks until released.
@@ -51,13 +51,23 @@ func (g *gateStore) SaveAllocatorState(id, ts uint64) error {
 	if !ok {
 		return g.Store.SaveAllocatorState(id, ts)
 	}
-	rel := make(chan bool, 1)
+	rel := make(chan int, 1)
 	g.arrive <- arrival{tid: tid, id: id, ts: ts, release: rel}
-	if !<-rel {
+	switch <-rel {
+	case relKill:
 		return errors.New("verif: process killed")
+	case relFail:
+		// the checkpoint write fails (storage error); nothing reaches PD_STATE.json
+		return errors.New("verif: injected checkpoint write failure")
 	}
 	return g.Store.SaveAllocatorState(id, ts)
 }
+
+const (
+	relKill = iota
+	relOK
+	relFail
+)
 
 type pdReply struct {
 	first, count uint64
@@ -79,10 +89,14 @@ type rng struct {
 type pdEngine struct{}
 
 func (e *pdEngine) Rule() string {
-	return "C27: schedules of concurrent AllocID/Tso requests (counts 0..10, up to 5 in flight) whose checkpoint saves are released in a random order, with process kills + restarts from PD_STATE.json at random points and calls of ResolveAllocatorStarts on boundary values (0, MaxUint64-1, MaxUint64); non-trivial = at some point two requests were in flight at the gate (or one parked and one blocked on the mutex), and a request replied after a restart"
+	return "C27: schedules of concurrent AllocID/Tso requests (counts 0..10, in 35% of the cases also batch sizes at and around 2^10, 2^16, 2^20, 2^21, 2^31, 2^32, 2^40; up to 5 in flight) whose checkpoint saves are released in a random order or made to fail (injected storage error, 18% of the releases) while other requests have already reserved, with process kills + restarts from PD_STATE.json at random points and calls of ResolveAllocatorStarts on boundary values (0, MaxUint64-1, MaxUint64); non-trivial = at some point two requests were in flight at the gate (or one parked and one blocked on the mutex), and a request replied after a restart"
 }
 
-var pdCounts = []int{0, 1, 1, 2, 3, 10}
+var pdCounts = []uint64{0, 1, 1, 2, 3, 10}
+
+// batch sizes at and around powers of two (a clamp or a narrower integer type would show there)
+var pdBigCounts = []uint64{1<<10 - 1, 1 << 10, 1<<16 + 1, 1<<20 - 1, 1 << 20, 1<<20 + 1, 1 << 21, 1<<21 + 1,
+	1<<31 - 1, 1 << 31, 1<<32 - 1, 1 << 32, 1<<32 + 1, 1 << 40}
 var pdStarts = []uint64{0, 1, 1, 1, 5, 100}
 var pdBoundary = []uint64{0, 1, 2, 7, 100, 18446744073709551613, 18446744073709551614, 18446744073709551615}
 
@@ -90,7 +104,8 @@ func (e *pdEngine) Gen(r *hlib.Rand, tier string) []string {
 	ops := []string{fmt.Sprintf("pd.open %d %d", hlib.Pick(r, pdStarts), hlib.Pick(r, pdStarts))}
 	n := 8 + r.Intn(22)
 	next := 0
-	var parked []int // threads believed to be in flight (parked or blocked)
+	var parked []int    // threads believed to be in flight (parked or blocked)
+	big := r.Chance(35) // this case uses large batches
 	for i := 0; i < n; i++ {
 		x := r.Intn(100)
 		switch {
@@ -99,15 +114,24 @@ func (e *pdEngine) Gen(r *hlib.Rand, tier string) []string {
 			if r.Chance(35) {
 				kind = "ts"
 			}
-			ops = append(ops, fmt.Sprintf("pd.req %d %s %d", next, kind, hlib.Pick(r, pdCounts)))
+			cnt := hlib.Pick(r, pdCounts)
+			if big && r.Chance(60) {
+				cnt = hlib.Pick(r, pdBigCounts)
+			}
+			ops = append(ops, fmt.Sprintf("pd.req %d %s %d", next, kind, cnt))
 			parked = append(parked, next)
 			next++
 		case x < 78 && len(parked) > 0:
 			j := r.Intn(len(parked))
-			if r.Chance(25) {
+			if r.Chance(40) {
 				j = 0 // oldest first: with a serialized persist this is the one holding the gate
 			}
-			ops = append(ops, fmt.Sprintf("pd.save %d", parked[j]))
+			if r.Chance(18) {
+				// the checkpoint write fails while later requests may already have reserved
+				ops = append(ops, fmt.Sprintf("pd.savefail %d", parked[j]))
+			} else {
+				ops = append(ops, fmt.Sprintf("pd.save %d", parked[j]))
+			}
 			parked = append(parked[:j], parked[j+1:]...)
 		case x < 86:
 			ops = append(ops, "pd.restart")
@@ -200,7 +224,7 @@ func (w *pdWorld) kill() {
 	w.gate.mu.Unlock()
 	for _, t := range w.threads {
 		if t.parked != nil {
-			t.parked.release <- false
+			t.parked.release <- relKill
 			t.parked = nil
 		}
 	}
@@ -212,7 +236,7 @@ func (w *pdWorld) kill() {
 		select {
 		case <-t.done:
 		case a := <-w.gate.arrive: // cannot happen (dead gate never parks) but do not hang
-			a.release <- false
+			a.release <- relKill
 		case <-deadline:
 			panic("verif: request goroutine did not finish after kill")
 		}
@@ -333,14 +357,19 @@ func (e *pdEngine) Exec(ops []string) []string {
 				w.blocked = append(w.blocked, tid)
 				out[i] = "blocked"
 			}
-		case f[0] == "pd.save" && len(f) == 2:
+		case (f[0] == "pd.save" || f[0] == "pd.savefail") && len(f) == 2:
 			tid, _ := strconv.Atoi(f[1])
 			t := w.threads[tid]
 			if w.gate == nil || t == nil || t.parked == nil {
 				out[i] = "notparked"
 				continue
 			}
-			t.parked.release <- true
+			fail := f[0] == "pd.savefail"
+			if fail {
+				t.parked.release <- relFail
+			} else {
+				t.parked.release <- relOK
+			}
 			t.parked = nil
 			var rep pdReply
 			select {
@@ -349,18 +378,20 @@ func (e *pdEngine) Exec(ops []string) []string {
 				panic("verif: released request did not reply (stuck)")
 			}
 			t.done = nil
-			if rep.err != nil {
+			if rep.err != nil && !(fail && strings.Contains(rep.err.Error(), "persist allocator state")) {
 				out[i] = "err:" + rep.err.Error()
 				continue
 			}
-			r := rng{t.kind, rep.first, rep.first + rep.count - 1}
 			flag := "fresh"
-			for _, o := range w.replied {
-				if overlapsR(r, o) {
-					flag = "dup"
+			if !fail {
+				r := rng{t.kind, rep.first, rep.first + rep.count - 1}
+				for _, o := range w.replied {
+					if overlapsR(r, o) {
+						flag = "dup"
+					}
 				}
+				w.replied = append(w.replied, r)
 			}
-			w.replied = append(w.replied, r)
 			nxt := ""
 			if len(w.blocked) > 0 {
 				// the persist mutex is free again: exactly one waiter takes it and reaches the gate
@@ -379,6 +410,14 @@ func (e *pdEngine) Exec(ops []string) []string {
 				}
 			}
 			cid, cts := w.ckpt()
+			if fail {
+				if rep.err == nil {
+					out[i] = "fresh:no-error"
+				} else {
+					out[i] = fmt.Sprintf("fresh:error ckpt=%d,%d cur=%d,%d%s", cid, cts, w.ids.Current(), w.tsa.Current(), nxt)
+				}
+				continue
+			}
 			out[i] = fmt.Sprintf("%s:reply=%d,%d ckpt=%d,%d%s", flag, rep.first, rep.count, cid, cts, nxt)
 		case f[0] == "pd.restart" && len(f) == 1:
 			if w.gate != nil {
